@@ -47,3 +47,28 @@ package fox
 //@   loop 1: invariant 0 <= i && c != nil && c.params != nil && !c.tsr && c.route == nil && len(*c.params) == 0 && c.req == r && c.scope == RouteHandler
 //@   loop 2: invariant 0 <= i#2 && c != nil && c.params != nil && c.tsrParams != nil && c.skipNds != nil && !c.tsr && c.route == nil && len(*c.params) == 0 && c.req == r && c.scope == RouteHandler
 //@   loop 3: invariant 0 <= i#3 && c != nil && c.params != nil && c.tsrParams != nil && c.skipNds != nil && !c.tsr && c.route == nil && len(*c.params) == 0 && c.req == r && c.scope == RouteHandler
+
+//@ -- ---------------------------------------------------------------- C09 / C08: hostname first, path-only fallback
+
+//@ fun byPathNode(t *iTree, target *node, path string) *node
+//@ fun byPathTsr(t *iTree, target *node, path string) bool
+//@ fun byDomainNode(t *iTree, target *node, host string, path string) *node
+//@ fun byDomainTsr(t *iTree, target *node, host string, path string) bool
+
+//@ -- the two walks, abstracted for the caller (their mechanisms are specified separately)
+//@ extern lookupByPath
+//@   requires c != nil && c.params != nil && c.tsrParams != nil && c.skipNds != nil
+//@   requires safety-target: target != nil
+//@   modifies *c.params, *c.tsrParams, *c.skipNds, E[Param], E[skippedNode]
+//@   ensures n == byPathNode(tree, target, path) && tsr == byPathTsr(tree, target, path) && (tsr ==> n != nil)
+//@ extern lookupByDomain
+//@   requires c != nil && c.params != nil && c.tsrParams != nil && c.skipNds != nil
+//@   requires safety-target: target != nil
+//@   modifies *c.params, *c.tsrParams, *c.skipNds, E[Param], E[skippedNode]
+//@   ensures n == byDomainNode(tree, target, host, path) && tsr == byDomainTsr(tree, target, host, path) && (tsr ==> n != nil)
+
+//@ func (roots).lookup props C09,C08,C01 partial
+//@   requires c != nil && c.params != nil && c.tsrParams != nil && c.skipNds != nil
+//@   modifies *c.params, *c.tsrParams, *c.skipNds, c.tsr, E[Param], E[skippedNode]
+//@   assert-at call lookupByDomain#1 : stripped-host: same(arg_host, netutil.StripHostPort(hostPort)) && same(arg_path, path) && arg_target == r[index] && arg_lazy == lazy
+//@   ensures tsr-flag: c.tsr ==> old(c.tsr)
